@@ -163,6 +163,7 @@ type world struct {
 	firstTrigAtEnq    atomic.Int64 // enqReturned when the first trigger was sent (-1: none sent)
 	flipActions       atomic.Int64
 	twinBlocks        atomic.Int64
+	earlyShutdown     bool
 	longTraces        atomic.Int64
 	oddLines          atomic.Int64
 	oddSubmissions    atomic.Int64
@@ -1020,6 +1021,30 @@ func runScenario(sc scenario) *world {
 		w.notes = append(w.notes, "log.Start: "+err.Error())
 	}
 	w.startRet = w.tick()
+
+	if sc.Family == "early" {
+		// Start, a handful of lines, Shutdown -- back to back in this goroutine, before
+		// the writer goroutine needs to have run at all. Everything logged (and returned)
+		// before Shutdown was called must be at the adapter when Shutdown returns.
+		for k := 0; k < sc.EarlyLines; k++ {
+			s := siteID(w.ctl.rng.Intn(nPkgs), w.ctl.rng.Intn(nVariants), w.ctl.rng.Range(1, nLevels))
+			if k%2 == 0 {
+				s = siteID(sitePkg(s), siteVariant(s), w.ctl.rng.Range(4, nLevels))
+			}
+			w.ctl.logLine(0, s, fmt.Sprintf("ini%d", k), w.certainlyEnabled(0, sitePkg(s), siteLvl(s)))
+		}
+		w.ctl.state.Store(stBarrier)
+		w.transition.Store(false)
+		w.pendingAtShut = w.enqReturned.Load() - int64(w.ad.count())
+		w.shutCall = w.tick()
+		log.Shutdown()
+		w.shutRet = w.tick()
+		w.shutRetLast = w.shutRet
+		w.setStop()
+		close(w.shutDone)
+		w.earlyShutdown = true
+		return w
+	}
 
 	var prodWG sync.WaitGroup
 	for _, p := range w.prods {
